@@ -1,4 +1,5 @@
 import Spine.C03Reg
+import Spine.GateThm
 /-!
 # C03 — a remote write takes effect only with a binding and write permission
 
@@ -183,5 +184,64 @@ example :
 example :
     (processCmd exW 1 { witD ([1], 1) with bad := true }).2 = [(1, .result (some 50) 1 ([1], 1) ([1], 1) (some 0))] ∧
     (processCmd exW 1 { witD ([1], 1) with bad := true }).1.written = [] := by decide
+
+/-! ## "at the moment it is processed" — all schedules (`Spine.Gate`)
+
+The theorems above are about sequential histories: one operation is one step. In the code the gate and the data
+change are two moments (`BindingsOnFeature` takes a snapshot of the registry in one region of the manager's mutex;
+`processWrite` runs later — at once, or when the application's write approval arrives), and registry operations of
+other connections and of the application run in between. `Spine.Gate` splits a write into the events `gate` and
+`apply`; every list of events is a schedule. -/
+
+/-- All schedules, every member of the family: whatever the interleaving of any number of writes with grants, deletes,
+    entity removals and clean-ups, a write that changed the data (i) was of a function announced writable and (ii) its
+    sender held the binding in the registry as it stood at the moment of its gate — after exactly the `seen` registry
+    operations executed before the snapshot, none later. A binding granted after the snapshot does not authorise it,
+    a deletion after the snapshot does not un-authorise it: the moment of processing decides. -/
+theorem c03_all_schedules_bound_at_gate (cfg : Cfg) (b0 : List Entry) (evs : List Gate.Ev) (w : Gate.Pend)
+    (hw : w ∈ (Gate.run (Gate.init cfg b0) evs).applied) :
+    w.wr = true ∧ w.seen ≤ (Gate.run (Gate.init cfg b0) evs).hist.length ∧
+      w.e ∈ Gate.regFold cfg b0 ((Gate.run (Gate.init cfg b0) evs).hist.take w.seen) :=
+  Gate.applied_bound_at_gate cfg b0 evs w hw
+
+/-- … and the data changes only through the write's own `apply` event, only if the gate let it through: no registry
+    operation, no other write's event, no clean-up applies a write. -/
+theorem c03_applied_only_by_own_apply (s : Gate.St) (ev : Gate.Ev) (w : Gate.Pend) (hw : w ∈ (Gate.step s ev).applied) :
+    w ∈ s.applied ∨ (ev = .apply w.id ∧ w ∈ s.pend ∧ w.ok = true) :=
+  Gate.applied_step_mono s ev w hw
+
+/-- "rejected again as soon as … the writer's device or entity disappears", for a write that is still waiting: the
+    clean-up of the writer's entity discards it, a later approval applies nothing. -/
+theorem c03_pending_discarded_when_entity_gone (s : Gate.St) (p : Nat) (ent : List Nat) (w : Gate.Pend)
+    (hw : w ∈ (Gate.stepClean s p ent).pend) (hp : w.e.2.1 = p) (he : w.e.2.2.1 = ent) : w.ok = false :=
+  Gate.clean_discards s p ent w hw hp he
+
+/-- Cross-model agreement: the sequential dispatch world is the schedule "gate immediately followed by apply" of this
+    model — the gate event's verdict is `gateOk` on the same registry, the registry operations are `callApply` /
+    `removeEnt` of the dispatch world (same family over the C09 / C10 flags). -/
+theorem c03_gate_model_agrees (w : W) (p : Nat) (lf : LF) (d : Dg) (c s : Addr) (t : Nat) (ent : List Nat) :
+    gateOk w p lf d = Gate.verdict w.binds (d.dst, p, d.src) (writable lf d.fn) ∧
+    (callApply w p (.bind c s t)).binds = Gate.regApply w.cfg w.binds (.grant (s, p, c)) ∧
+    (callApply w p (.unbind c s)).binds = Gate.regApply w.cfg w.binds (.delete s p c) ∧
+    (removeEnt w p ent).binds = Gate.regApply w.cfg w.binds (.entGone p ent) :=
+  ⟨Gate.gate_agrees w p lf d, Gate.reg_agrees w p c s t ent⟩
+
+/-- non-vacuity, four schedules over the binding `eB` of ([1],1) on connection 1 to server ([1],1):
+    (a) gate, then the binding is deleted, then the approval arrives: applied — it was processed while bound;
+    (b) deleted first, gate, granted again, apply: refused — a later grant does not authorise it;
+    (c) gate, the writer's entity disappears (registry pass and clean-up), approval: nothing is applied;
+    (d) two writers interleaved, only the bound one is applied, whatever the order of the apply events -/
+def eB : Entry := (([1], 1), 1, ([1], 1))
+def eOther : Entry := (([1], 1), 2, ([1], 1))
+example :
+    ((Gate.run (Gate.init Cfg.clean [eB]) [.gate 1 eB true, .reg (.delete ([1], 1) 1 ([1], 1)), .apply 1]).applied.map (·.id)) = [1] ∧
+    ((Gate.run (Gate.init Cfg.clean [eB]) [.gate 1 eB true, .reg (.delete ([1], 1) 1 ([1], 1)), .apply 1]).binds) = [] ∧
+    (let s := Gate.run (Gate.init Cfg.clean [eB]) [.reg (.delete ([1], 1) 1 ([1], 1)), .gate 1 eB true, .reg (.grant eB), .apply 1]
+     s.applied.map (·.id) = [] ∧ s.refused = [1] ∧ s.binds = [eB]) ∧
+    (let s := Gate.run (Gate.init Cfg.clean [eB]) [.gate 1 eB true, .reg (.entGone 1 [1]), .clean 1 [1], .apply 1]
+     s.applied.map (·.id) = [] ∧ s.refused = [] ∧ s.pend.map (·.id) = []) ∧
+    (let s := Gate.run (Gate.init Cfg.clean [eB]) [.gate 1 eB true, .gate 2 eOther true, .reg (.delete ([1], 1) 1 ([1], 1)), .apply 2, .apply 1]
+     s.applied.map (·.id) = [1] ∧ s.refused = [2]) ∧
+    ((Gate.run (Gate.init Cfg.clean [eB]) [.gate 1 eB false, .apply 1]).refused) = [1] := by decide
 
 end Spine.Props.C03
